@@ -125,8 +125,9 @@ func VerifStoreRoundTrip() {
 	h[3] = 0xab
 
 	// p1 is symbolic (the value space is covered by the codec harnesses; here
-	// the address is short), p2 is a fixed second peer with a symbolic flag.
-	p1 := verifSymPeerN("p", false, 1, verif.Bound("store_ip_min", 1, 0), verif.Bound("store_ip_max", 2, 4))
+	// the address is short, over the IPv6 or the host-name alphabet), p2 is a
+	// fixed second peer with a symbolic flag.
+	p1 := verifSymPeerN("p", verif.Bool("p_ipv6_alphabet"), 1, verif.Bound("store_ip_min", 1, 0), verif.Bound("store_ip_max", 2, 4))
 	p2 := core.NewPeerInfo(p1.PeerID, "10.0.0.2", 7001, false, verif.Bool("q_complete"))
 	verif.Assume(verif.Or(p1.IP != p2.IP, p1.Port != p2.Port))
 
